@@ -133,8 +133,8 @@ func (di *dupInfo) inList(s *slip.Scope, seq slip.List, depth int) (list slip.Li
 
 func (di *dupInfo) inString(s *slip.Scope, seq slip.String, depth int) slip.Object {
 	ra := []rune(seq)
-	if di.end < 0 || len(seq) < di.end {
-		di.end = len(seq)
+	if di.end < 0 || len(ra) < di.end {
+		di.end = len(ra)
 	}
 	d2 := depth + 1
 	var nra []rune
